@@ -8,6 +8,7 @@ at the end).  The history is interpreted against (real object, list model).
 """
 import sys
 import math
+from fractions import Fraction
 from hypothesis import strategies as st
 from vlib.core import Clause, Enumerated, Violation
 from vlib.sources import Src
@@ -18,9 +19,10 @@ from audiolazy import lazy_itertools as lit
 ID = "C03"
 RULE = ("cases = histories (initial pool of 1-3 finite / generator-backed / periodic / "
         "constant / bounded-endless streams or thubs, then <=12 (quick) / <=40 (thorough) "
-        "steps take peek skip limit append map filter copy tee thub use next for list, "
+        "steps take peek skip limit append map filter copy tee thub use next for list "
+        "(counts: None, ints, floats incl. halves and floats 1-3 ulps from a half / an integer, +-inf, nan), "
         "then a generated drain schedule) drawn by Hypothesis, plus an exhaustive grid of "
-        "(source kind, length, consumed prefix, method, count); oracle = immutable list "
+        "(source kind, length, [filter/map stage,] consumed prefix, method, count); oracle = immutable list "
         "model (finite prefix + optional cycle) evaluated step by step: every return "
         "value, every exception, and the next <=8 items of every live object; "
         "non-trivial = a consuming step on an object that has live copies / tee siblings "
@@ -29,7 +31,7 @@ RULE = ("cases = histories (initial pool of 1-3 finite / generator-backed / peri
 ASSUMPTIONS = [
   "map/filter functions are pure and total (chosen by name from FUNCS / PREDS)",
   "filter is applied to an endless stream only when some element of its cycle passes",
-  "skip/limit counts are ints or floats that are not exact halves (rounding mode of halves is unspecified); take/peek floats include exact halves (documented: half away from zero)",
+  "skip/limit counts are ints or floats that are not exact halves (rounding mode of halves is unspecified), the representable neighbours of halves included; take/peek floats include exact halves (documented by rint: nearest integer, half away from zero) and their neighbours; expected counts are computed on the exact rational value of the float",
   "take/peek(inf) and list() only on streams whose model is finite",
   "a stream handed to append/tee/thub/Stream() is dead afterwards (documented) and is not used again",
   "'use' of a thub = anything that calls iter() on it: Stream(hub), iter(hub), tee(hub), thub(hub), append(hub), hub.skip/limit/append/map/filter; hub.peek/hub.copy use none but need one to be left",
@@ -167,9 +169,50 @@ def same(a, b):
     (x is y) or (type(x) is type(y) and x == y) for x, y in zip(a, b))
 
 
+def _split(x):
+  """Finite float -> (floor, exact fractional part as a Fraction).  No float
+  arithmetic: x + .5 is not exact (nextafter(.5, 0) + .5 == 1.0)."""
+  q = Fraction(x)
+  k = q.numerator // q.denominator
+  return k, q - k
+
+
+_HALF = Fraction(1, 2)
+
+
 def half_away(x):
-  """Documented rounding of take/peek: nearest, exact halves away from zero."""
-  return int(math.floor(abs(x) + .5)) * (1 if x >= 0 else -1)
+  """Documented rounding of take/peek (rint: "the step multiple nearest to x",
+  exact halves "farthest to zero"), evaluated on the exact value of the float."""
+  k, fr = _split(abs(x))
+  return (k + 1 if fr >= _HALF else k) * (1 if x >= 0 else -1)
+
+
+def is_half(x):
+  """x is a finite float whose exact value is an integer plus one half."""
+  return isinstance(x, float) and x == x and x not in (INF, -INF) and _split(x)[1] == _HALF
+
+
+def ulps(x, k):
+  """The float k representable steps above (k > 0) / below (k < 0) x."""
+  for _ in range(abs(k)):
+    x = math.nextafter(x, INF if k > 0 else -INF)
+  return x
+
+
+def near_half(x):
+  """A finite float that is not an exact half but lies within 4 ulps of one."""
+  if not isinstance(x, float) or x != x or x in (INF, -INF) or is_half(x):
+    return False
+  h = math.floor(x) + .5
+  return ulps(h, -4) <= x <= ulps(h, 4)
+
+
+def near_whole(x):
+  """A finite non-integral float within 4 ulps of an integer."""
+  if not isinstance(x, float) or x != x or x in (INF, -INF) or x == math.floor(x):
+    return False
+  w = float(round(x))
+  return ulps(w, -4) <= x <= ulps(w, 4)
 
 
 def take_count(n):
@@ -184,18 +227,26 @@ def take_count(n):
 
 
 def cut_count(n):
-  """skip/limit count: nearest integer (n is an int or a non-half float)."""
+  """skip/limit count: nearest integer (n is an int or a non-half float),
+  evaluated on the exact value of the float."""
   if isinstance(n, float):
-    n = int(math.floor(n + .5))
+    k, fr = _split(n)
+    assert fr != _HALF, n
+    n = k + 1 if fr > _HALF else k
   return max(n, 0)
 
 
 def resolve_n(spec, m, for_cut=False):
   """Count spec -> actual argument.  ("v", x): x itself.  ("rel", d, frac):
   (remaining + d) + frac for a finite model, (3 + d) + frac for an endless
-  one; frac None keeps an int.  ("big",): far beyond."""
+  one; frac None keeps an int.  ("big",): far beyond.  ("ulp", mode, j, half,
+  k): the float k representable steps away from j (+ .5 when half), j absolute
+  (mode "abs") or relative to the remaining length like "rel"."""
   if spec[0] == "v":
     n = spec[1]
+  elif spec[0] == "ulp":
+    base = spec[2] if spec[1] == "abs" else (len(m.p) if m.finite() else 3) + spec[2]
+    n = ulps(float(base) + (.5 if spec[3] else 0.), spec[4])
   elif spec[0] == "big":
     n = 1000 if m.finite() else 12
   else:
@@ -204,7 +255,7 @@ def resolve_n(spec, m, for_cut=False):
   if for_cut:
     if n is None or (isinstance(n, float) and (n != n or n in (INF, -INF))):
       n = 2
-    if isinstance(n, float) and abs(n - math.floor(n) - .5) < 1e-9:
+    if is_half(n):
       n = n + .25      # exact halves are outside the domain of skip/limit
   return n
 
@@ -419,10 +470,16 @@ class Run(object):
         self.labels.add("n:inf")
       elif n == -INF:
         self.labels.add("n:-inf")
-      elif abs(n - math.floor(n) - .5) < 1e-9 and n > 0:
+      elif is_half(n) and n > 0:
         self.labels.add("n:half float")
       else:
         self.labels.add("n:float")
+      if near_half(n) and n > 0:
+        self.labels.add("n:next to a half")
+        if m.remaining() > int(n):     # enough items left for the direction to show
+          self.labels.add("n:next to a half, decisive")
+      elif near_whole(n) and n > 0:
+        self.labels.add("n:next to an integer")
     elif n < 0:
       self.labels.add("n:negative")
     elif c == m.remaining():
@@ -484,6 +541,10 @@ class Run(object):
         e.pending = e.pending or op
       if isinstance(n, float):
         self.labels.add("cut:float")
+        if near_half(n) and n > 0:
+          self.labels.add("cut:next to a half")
+        elif near_whole(n) and n > 0:
+          self.labels.add("cut:next to an integer")
       elif n < 0:
         self.labels.add("cut:negative")
       if op == "skip":
@@ -828,7 +889,17 @@ def _inits(tier, hubs=True):
 
 
 _FRACS = [0., .5, .25, -.25, .4999, -.5]
+# floats a few representable steps away from a half / an integer (the half itself
+# for k = 0): absolute small ones and ones placed around the remaining length
+_ULPK = st.sampled_from([-1, -1, -1, 1, 1, 1, -2, 2, -3, 3, 0])
+_ulpspec = st.one_of(
+  st.tuples(st.just("ulp"), st.just("abs"), st.integers(0, 6), st.booleans(), _ULPK),
+  st.tuples(st.just("ulp"), st.just("abs"), st.integers(0, 2), st.just(True), _ULPK),
+  st.tuples(st.just("ulp"), st.just("rel"), st.integers(-3, 1), st.just(True), _ULPK),
+  st.tuples(st.just("ulp"), st.just("rel"), st.integers(-2, 2), st.booleans(), _ULPK),
+)
 _nspec = st.one_of(
+  _ulpspec,
   st.just(("v", None)),
   st.integers(-2, 12).map(lambda k: ("v", k)),
   st.tuples(st.just("rel"), st.integers(-2, 3), st.none()),
@@ -839,6 +910,7 @@ _nspec = st.one_of(
   st.just(("big",)),
 )
 _cutspec = st.one_of(
+  _ulpspec,
   st.integers(-2, 12).map(lambda k: ("v", k)),
   st.tuples(st.just("rel"), st.integers(-2, 3), st.none()),
   st.tuples(st.just("rel"), st.integers(-2, 3), st.none()),
@@ -945,11 +1017,19 @@ def strat_hub(tier):
 
 
 def grid(tier, shard, nshards):
-  """Every (source kind, length, consumed prefix, method, count)."""
+  """Every (source kind, length, consumed prefix, method, count), plain and behind
+  a filter / map stage."""
   lens = range(0, 4) if tier == "quick" else range(0, 6)
   counts = [None, -2, -1, 0, .4, .5, 1.5, 2.5, 2.4999, 3.6, -1.5, -0., 1e-9,
             INF, -INF, float("nan"), 1000]
   cuts = [-2, -1, 0, .4, -.4, 2.3, 3.7, 1000]
+  # the representable neighbours of the halves and of the integers of the box
+  # (take/peek: the halves themselves are in ``counts``; skip/limit: not in the domain)
+  near = [ulps(j + .5, k) for j in range(0, 4) for k in (-2, -1, 1, 2)]
+  near += [ulps(float(j), k) for j in range(0, 4) for k in (-1, 1)]
+  near += [ulps(-.5, 1), ulps(-.5, -1), ulps(1000.5, -1), ulps(1000.5, 1)]
+  counts = counts + near
+  cuts = cuts + near
   i = 0
   for kind in ("list", "gen", "per", "endless", "hub:list"):
     for n in lens:
@@ -968,21 +1048,43 @@ def grid(tier, shard, nshards):
             steps = ([("take", 0, (("v", pre), "list"))] if pre else []) + [(op, 0, arg)]
             yield dict(init=[spec], steps=steps, inv="end" if (i // nshards) % 2 else "each",
                        drain=[])
+  # the same box behind a filter / map stage (the stage changes the period and the
+  # length of what remains): every int count up to beyond the rest, one float, far beyond
+  for kind in ("list", "per", "endless", "hub:list"):
+    for n in lens:
+      if kind in ("per",) and n < 2 or kind == "endless" and n < 1:
+        continue
+      data = list(range(10, 10 + n))
+      spec = (kind, data, 2) if kind.startswith("hub") else (kind, data)
+      for stage in (("filter", 0, "even"), ("filter", 0, "pos"), ("map", 0, "neg")):
+        for pre in (0, 1):
+          for op in ("take", "peek", "skip", "limit"):
+            for cnt in list(range(0, n + 3)) + [2.3, 1000]:
+              i += 1
+              if i % nshards != shard:
+                continue
+              arg = (("v", cnt), "list") if op in ("take", "peek") else ("v", cnt)
+              steps = [stage] + ([("take", 0, (("v", pre), "list"))] if pre else []) + [(op, 0, arg)]
+              yield dict(init=[spec], steps=steps, inv="end" if (i // nshards) % 2 else "each",
+                         drain=[])
 
 
 CLAUSES = [
   Clause("history", strat_history, run_history, quick=4000, thorough=36000,
          floors={"short take": .12, "interleaved copies": .12, "hub exhausted": .05,
                  "periodic": .1, "hub use": .05, "n:None": .05, "short skip": .02,
-                 "short limit": .015, "StopIteration": .1},
+                 "short limit": .015, "StopIteration": .1,
+                 "n:next to a half, decisive": .02, "n:next to an integer": .01,
+                 "cut:next to a half": .03},
          doc="general histories over a pool of streams and thubs vs the list model"),
   Clause("copies", strat_copies, run_history, quick=2000, thorough=16000,
-         floors={"interleaved copies": .2, "tee": .1, "thub": .1},
+         floors={"interleaved copies": .2, "tee": .1, "thub": .1,
+                 "n:next to a half, decisive": .02},
          doc="one source, copies/tee/thub made early, consumption interleaved between them"),
   Clause("hub", strat_hub, run_history, quick=1500, thorough=10000,
          floors={"hub exhausted": .3, "hub use": .2, "hub exhausted inside the history": .1,
-                 "hub peek": .02, "hub copy": .03},
+                 "hub peek": .02, "hub copy": .03, "n:next to a half, decisive": .02},
          doc="thub histories: exactly n uses of every kind, peek/copy use none, IndexError after"),
   Enumerated("counts", grid, run_history, shards={"quick": 4, "thorough": 8},
-             doc="every (source kind, length, consumed prefix, take/peek/skip/limit, count) in a small box"),
+             doc="every (source kind, length, consumed prefix, take/peek/skip/limit, count) in a small box, plain and behind a filter/map stage"),
 ]
